@@ -947,6 +947,8 @@ class Interp:
                 return obj.fields[obj.cls.namedtuple["fields"][i]]
         if isinstance(obj, DictVal):
             return obj.getitem(self, idx)
+        if hasattr(obj, "pyvc_getitem"):
+            return obj.pyvc_getitem(self, idx)
         if isinstance(obj, SList):
             i = self.as_int(idx)
             if self.branch(simp(z3.Or(Z(i) >= Z(obj.length), Z(i) < -Z(obj.length)))):
@@ -1369,6 +1371,9 @@ class Interp:
             raise OutOfReach("list store at a symbolic index")
         if isinstance(obj, DictVal):
             obj.setitem(self, idx, v)
+            return
+        if hasattr(obj, "pyvc_setitem"):
+            obj.pyvc_setitem(self, idx, v)
             return
         raise OutOfReach(f"item assignment on {type(obj).__name__}")
 
